@@ -62,6 +62,24 @@ fn run(sh: &mut Shard) {
             sh.running()
         });
     }
+    // nesting templates with every abort point
+    for depth in 1..=(if tier == Tier::Quick { 2 } else { 3 }) {
+        crate::compose::for_each(depth, &mut |_, prog| {
+            if !sh.mine() {
+                return sh.running();
+            }
+            sh.begin(&|| printer::program(prog));
+            sh.count("family:compose");
+            if let Some(st) = gcprog::check_full(sh, "C04", "compose", prog) {
+                sh.nontrivial(&printer::program(prog));
+                if st.steps <= 400 {
+                    sh.count("programs-with-all-abort-points");
+                    gcprog::check_abort_points(sh, "compose", prog, st.steps);
+                }
+            }
+            sh.running()
+        });
+    }
     // the corpus: every abort point of the short ones
     for (text, _) in super::c01::corpus() {
         if !sh.mine() {
